@@ -164,6 +164,33 @@ pub fn s_mk(cx: &mut Ctx) {
         }
     }
     cx.end();
+    // very large variable indices (64-bit hash wrap-around in the Szudzik pairing, u32 limits); no truth
+    // tables here: the strict comparison with the model and the structural scans are the oracles
+    cx_begin!(cx, 0, "newdefault 10".to_string(), 1);
+    // a chain x_v1 ∧ (x_v2 ⊕ …) over descending variables, built bottom-up
+    let mut prev = 0usize; // starts at `one`
+    for v in [4294967295u64, 4294967294, 4000000000, 2147483648, 2147483647, 1000000007, 65537, 65536, 65535, 300, 7] {
+        let np = cx_op!(cx, format!("not {}", prev));
+        let a = cx_op!(cx, format!("node {} {} {}", v, np, prev)); // x_v ? prev : ~prev
+        prev = a;
+        cx_op!(cx, format!("var {}", v));
+        cx_op!(cx, format!("size {}", prev));
+        cx_op!(cx, format!("bracket {}", prev));
+        if v == 2147483648 {
+            // everything so far uses variables that do not fit an `i32` literal: counts and exports only
+            cx_op!(cx, format!("satcount {} 64", prev));
+            cx_op!(cx, format!("dot {} {}", prev, a));
+            prev = 0;
+        }
+    }
+    cx_op!(cx, format!("satcount {} 64", prev));
+    cx_op!(cx, format!("onesat {}", prev));
+    cx_op!(cx, format!("paths {}", prev));
+    cx.op("cube 2147483647 -1000000 65536 3".into());
+    cx.op("clause -2147483647 1000000 -65536 3".into());
+    cx_op!(cx, format!("gc {}", prev));
+    cx.op("cube 2147483647 -1000000 65536 3".into());
+    cx.end();
     // random functions over 4..6 variables bottom-up, tiny buckets
     let cases = if cx.thorough { 400 } else { 12 };
     for _ in 0..cases {
@@ -881,6 +908,10 @@ pub fn s_count(cx: &mut Ctx) {
             let h = build(cx, &mut memo, f);
             for nv in [n as u64, n as u64 + 1, 64, 70] {
                 cx_op!(cx, format!("satcount {} {}", h, nv));
+            }
+            if f % 37 == 0 {
+                // arbitrary precision far beyond 64 bits
+                cx_op!(cx, format!("satcount {} {}", h, 200 + f % 5000));
             }
             let nh = cx_op!(cx, format!("not {}", h));
             cx_op!(cx, format!("satcount {} {}", nh, n));
